@@ -70,14 +70,14 @@ class ResultInterp(Interp):
 
     def class_member(self, cls: Class, attr: str, node):
         if cls.name == "Metric":
-            for m in self.root.metrics:
+            for m in getattr(self.root, "metrics", []):
                 if m.attrs.get("_name_") == attr:
                     return m
         return super().class_member(cls, attr, node)
 
     def iterate_class(self, cls, node):
         if cls.name == "Metric":
-            return list(self.root.metrics)
+            return list(getattr(self.root, "metrics", []))
         return super().iterate_class(cls, node)
 
     def subscript_hook(self, base, idx, node):
